@@ -76,3 +76,13 @@ Definition chk_xcustom (c : xkind * list spattern * option (list (spattern * src
       | None, None => true
       | _, _ => false end
   end.
+
+(* decidable form of the Safe class `linear_on_box` (proved equivalent in Proofs/C02LinearProofs.v):
+   the unit-response coefficients reproduce f on every point of the box *)
+From Snax Require Model.Tsl.
+Definition linear_on_boxb (f : list Z -> Z) (bounds : list Z) : bool :=
+  let n := List.length bounds in
+  forallb (fun x => f x =? f (zero_vec n) + dot (resolve f n) x) (Tsl.row_major bounds).
+(* (layout, element bytes, schedule A, b, bounds, the harness classifier's verdict on the real maps) *)
+Definition chk_linb (c : mlayout * Z * list (list Z) * list Z * list Z * bool) : bool :=
+  match c with (l, e, A, b, bounds, want) => Bool.eqb (linear_on_boxb (access_mem l e A b) bounds) want end.
